@@ -80,3 +80,72 @@ Print Assumptions C07_model_passes.
 Example C07_nonvacuous :
   c07_wf nv7 = true /\ run_c07 nv7 = ([mkO 0 533333333 [101; 1; 2; 3; 4; 5]], false).
 Proof. exact C07_nonvacuous. Qed.
+
+(* ------------------------------------------------------------------------- *)
+(* converters behind the demuxer (Model/C07Conv.v: thin total wrappers around the
+   C08 / C09 step functions, which carry the explicit failure outcomes) *)
+From V Require C08Flv C09Adts C09TsFrame.
+From V Require Import C07Conv C07ConvProofs.
+
+(* flvpack_total: one round of the FLV muxer loop (start condition, sequence
+   headers, H.264 / H.265 / AAC packetizer) never panics — for every live
+   metadata (any SPS / PPS / VPS / AAC config bytes, known or not), every loop
+   state, every frame whose video payload is non-empty, every media type.
+   hvcc_built = "the HEVC parameter-set decoders return a value or an error". *)
+Theorem C07_flvpack_total : forall c started f,
+  hvcc_built c -> flv_frame_ok f -> flv_step c started f <> None.
+Proof. exact flv_step_total. Qed.
+Print Assumptions C07_flvpack_total.
+
+(* tspack_total: the TS packetizers (h264: prepareAvcHeader, in-band set skip;
+   aac: ADTS header, undecodable config = refusal) never panic *)
+Theorem C07_tspack_total : forall sps pps a c,
+  ts_frame_ok c -> ts_step sps pps a c <> TsPanic.
+Proof. exact ts_step_total. Qed.
+Print Assumptions C07_tspack_total.
+
+(* stream_survives: reader -> cache classification -> RTP demuxer -> FLV muxer /
+   TS muxer.  For every input es on the media connection and every legal
+   loss-free suffix: no stage panics, and every stage converts the suffix
+   exactly (frames = the sender's units; FLV tags = C08's one tag per frame;
+   TS frames = C09's packetizer output), for every decoding-time-stamp assignment. *)
+Theorem C07_stream_survives : forall c clock seq0 k es items fc sps pps a d1 d2,
+  forallb ev_ok es = true -> suffix_ok c items = true ->
+  hvcc_built fc -> psets_known fc = true ->
+  exists st1 f1 st2,
+    forallb classify_ev (es ++ suffix_events c seq0 k items) = true /\
+    drun c clock dst_init es = (st1, f1, false) /\
+    let sfx := suffix_frames c clock (d_base st1) items in
+    drun c clock dst_init (es ++ suffix_events c seq0 k items) = (st2, f1 ++ sfx, false) /\
+    (length d1 = length f1 -> length d2 = length sfx ->
+     (exists b T0, flv_run fc false (flv_in (d1 ++ d2) (f1 ++ sfx))
+                   = Some (b, T0 ++ C08Flv.mux_frames fc (flv_in d2 sfx))) /\
+     (exists F0, ts_run sps pps a (ts_in (d1 ++ d2) (f1 ++ sfx))
+                 = Some (F0 ++ ts_spec sps pps a (ts_in d2 sfx)))).
+Proof. exact stream_survives. Qed.
+Print Assumptions C07_stream_survives.
+
+(* the oracles of the converter streams accept the model *)
+Theorem C07_flvconv_model_passes : forall c fs,
+  hvcc_built c -> Forall oframe_ok fs ->
+  flvconv_ok c fs true (Z.of_nat (length (C08Flv.mux_frames c (flv_in (zero_dts fs) fs)))) = true.
+Proof. exact flvconv_model_passes. Qed.
+Print Assumptions C07_flvconv_model_passes.
+
+Theorem C07_tsconv_model_passes : forall sps pps fs,
+  Forall oframe_ok fs ->
+  tsconv_ok sps pps fs true (Z.of_nat (length (ts_spec sps pps None (ts_in (zero_dts fs) fs)))) 0 = true.
+Proof. exact tsconv_model_passes. Qed.
+Print Assumptions C07_tsconv_model_passes.
+
+(* known finding (hls-stall-after-clock-rebase): the first sender report rebases the clock even after media has started *)
+Theorem C07_sr_rebase_refuted :
+  exists p1 p2 rt,
+    p_ts p1 < p_ts p2 /\
+    let '(_, fs, _) := drun CH264 90000 dst_init [EData p1; ESr (sr_bytes rt 0 0); EData p2] in
+    match fs with
+    | [a; b] => o_pts b < o_pts a
+    | _ => False
+    end.
+Proof. exact sr_rebase_refuted. Qed.
+Print Assumptions C07_sr_rebase_refuted.
